@@ -23,7 +23,7 @@
 (* A marker is the index of its Start event; a completed marker is           *)
 (* [pos, kind].  `None` is the completed marker with pos 0.                  *)
 (***************************************************************************)
-EXTENDS Naturals, Integers, Sequences, FiniteSets, TLC
+EXTENDS Naturals, Integers, Sequences, FiniteSets, TLC, EventProc        \* EventProc: spec/events (via -DTLA-Library)
 
 VARIABLE toks
 
@@ -735,10 +735,10 @@ SourceFile == LET m == M(St0) IN Complete(SourceFileContents(St(St0), FALSE), m,
 Parsed == SourceFile
 ReturnsNormally(p) == p.bad = ""                                        \* no panic, no stuck loop
 ConsumesAll(p) == p.pos = Len(toks)                                     \* source_file stops only at EOF
-(* every marker was completed or abandoned: no TOMBSTONE start carries a forward parent, starts and finishes balance *)
+(* every marker was completed or abandoned and the steps event::process derives from the events form one balanced tree *)
 NStarts(p) == Cardinality({ i \in 1..Len(p.ev) : p.ev[i].tag = "start" /\ p.ev[i].kind # "T" })
 NFinishes(p) == Cardinality({ i \in 1..Len(p.ev) : p.ev[i].tag = "finish" })
-MarkersDischarged(p) == NStarts(p) = NFinishes(p) /\ \A i \in 1..Len(p.ev) : (p.ev[i].tag = "start" /\ p.ev[i].kind = "T") => p.ev[i].fwd = 0
+MarkersDischarged(p) == NStarts(p) = NFinishes(p) /\ SingleRootSteps(Process(p.ev, 1, {}))
 (* linear work: the number of events is bounded by a constant factor of the tokens *)
 LinearWork(p) == Len(p.ev) <= 64 * (Len(toks) + 1)
 =============================================================================
